@@ -862,6 +862,83 @@ func runC19(args []string) int {
 		}
 	}
 
+	// feature-class selections: switch off every row of one class (what the generated code needs -- imports,
+	// helper functions, getters -- depends on which classes of fields are present at all), or keep only file_id
+	// plus the rows of one class
+	if o.replay == "" {
+		const cScale = 6
+		classes := []struct {
+			name string
+			in   func(f *c19Field) bool
+		}{
+			{"scaled-scalar", func(f *c19Field) bool { return f.cells[cScale] != "" && f.cells[cArray] == "" }},
+			{"scaled-array", func(f *c19Field) bool { return f.cells[cScale] != "" && f.cells[cArray] != "" }},
+			{"time", func(f *c19Field) bool { return strings.Contains(f.cells[cType], "date_time") }},
+			{"components", func(f *c19Field) bool { return f.cells[cComps] != "" }},
+			{"array", func(f *c19Field) bool { return f.cells[cArray] != "" }},
+			{"string", func(f *c19Field) bool { return f.cells[cType] == "string" }},
+		}
+		vers := c19Versions
+		if o.tier != "thorough" {
+			vers = []string{c19Versions[int(o.seed)%len(c19Versions)], "21.40"}
+		}
+		for _, v := range vers {
+			b := env.books[v]
+			for _, cl := range classes {
+				for mode := 0; mode < 2; mode++ {
+					off := map[int]bool{}
+					for _, f := range b.rows {
+						if !c19Enabled(f.cells) || len(f.cells) <= cExample {
+							continue
+						}
+						inClass := cl.in(f)
+						if mode == 0 && inClass {
+							off[f.line] = true // everything but this class
+						}
+						if mode == 1 && !inClass && f.msg != b.msgs[0] {
+							off[f.line] = true // only file_id and this class
+						}
+					}
+					c19Close(b, off)
+					var lines []int
+					for l := range off {
+						lines = append(lines, l)
+					}
+					sort.Ints(lines)
+					label := "without-" + cl.name
+					if mode == 1 {
+						label = "only-file_id-and-" + cl.name
+					}
+					cases = append(cases, c19Case{Ver: v, Input: "xlsx", Blanked: lines, Label: label})
+				}
+				// file_id plus ONE row of the class (rows without components, so that nothing else comes back
+				// through the dependency closure)
+				var singles []*c19Field
+				for _, f := range b.rows {
+					if c19Enabled(f.cells) && len(f.cells) > cExample && !f.isSub && len(f.subs) == 0 && f.msg != b.msgs[0] && cl.in(f) && f.cells[cComps] == "" {
+						singles = append(singles, f)
+					}
+				}
+				for k := 0; k < 2 && len(singles) > 0; k++ {
+					keep := singles[rg.intn(len(singles))]
+					off := map[int]bool{}
+					for _, f := range b.rows {
+						if c19Enabled(f.cells) && f.msg != b.msgs[0] && f != keep {
+							off[f.line] = true
+						}
+					}
+					c19Close(b, off)
+					var lines []int
+					for l := range off {
+						lines = append(lines, l)
+					}
+					sort.Ints(lines)
+					cases = append(cases, c19Case{Ver: v, Input: "xlsx", Blanked: lines, Label: "file_id-and-one-" + cl.name + "-row"})
+				}
+			}
+		}
+	}
+
 	// probes of the dependency relation (outside the property): switch off exactly one needed row
 	if o.replay == "" {
 		nprobe := 1
